@@ -173,6 +173,19 @@ def items(tier):
     add("user_severity", None, [{"severity": {"Todo": {"type": "error"}, "Future": {"type": "warning"}}}, {"rule": {"entity_004": {"severity": "Future"}, "port_007": {"severity": "Todo"}}}],
         seeds=[configs_k1.fixture_of("entity_004"), configs_k1.fixture_of("port_007")], rc=["entity_004"])
     add("skip_phase", None, [{"skip_phase": [2, 6]}], seeds=probe[:4])
+    add("user_severity_shadows_builtin", None, [{"severity": {"Warning": {"type": "error"}}}], seeds=[s for s in ("fix/length/rule_001", "fix/length/rule_003") if s in corpus.manifest()["by_id"]] + probe[:2])
+    add("user_severity_shadows_builtin", None, [{"severity": {"Error": {"type": "warning"}}}, {"rule": {"entity_004": {"severity": "Error"}}}], seeds=[configs_k1.fixture_of("entity_004")] + probe[:1])
+    # options given at the global level (they reach every rule that can be configured with them): values taken from the seed itself
+    import re as _re
+
+    caseseeds = [s for s in corpus.seed_ids(("fix",)) if s.endswith(("rule_500", "rule_501", "rule_502", "rule_600", "rule_601"))]
+    for s in (caseseeds[::9] if tier == "quick" else caseseeds[::2]):
+        words = sorted({w for l in corpus.lines_of(s) for w in _re.findall(r"[A-Za-z_][A-Za-z0-9_]{2,}", l.split("--")[0]) if w.lower() != w})[:6]
+        if not words:
+            continue
+        add("global_option", None, [{"rule": {"global": {"case_exceptions": words}}}], seeds=[s])
+        add("global_option", None, [{"rule": {"global": {"prefix_exceptions": [w[:2] for w in words[:3]], "suffix_exceptions": [w[-2:] for w in words[:3]]}}}], seeds=[s])
+        add("global_option", None, [{"rule": {"global": {"exceptions": [words[0]], "style": "no_blank_line", "number_of_spaces": 2}}}], seeds=[s])
     add("linesep", None, [{"linesep": "\r\n"}], seeds=probe[:2])
     add("debug_key", "indent_only", [{"rule": {"global": {"indent_size": 3}}}], seeds=probe[:3])
     for it in out:
